@@ -36,7 +36,7 @@ ASSUMPTIONS = [
 
 
 def GATES(tier):
-    return [("raising_ops_judged", 300), ("callback_faults_judged", 50), ("inplace_raising_judged", 50), ("fail:nonconf", 20), ("fail:missing_target", 20), ("fail:unknown_kw", 20), ("fail:raising_cb", 10), ("fail:dup_key", 5)]
+    return [("raising_ops_judged", 300), ("callback_faults_judged", 50), ("inplace_raising_judged", 50), ("fail:nonconf", 20), ("fail:missing_target", 20), ("fail:unknown_kw", 20), ("fail:raising_cb", 10), ("fail:dup_key", 5), ("callback_kind:keyfn", 20), ("callback_kind:validator", 3), ("callback_kind:post_copy", 5), ("fail:container_rejects", 4)]
 
 
 def judge(ctx, world, op, step, history, failure, case, extra=None):
@@ -126,9 +126,135 @@ def directed_known_findings(ctx):
         world.close()
 
 
+CALLBACK_KINDS_SRC = """
+from typing import List
+from spec_classes import spec_class, Attr
+from spec_classes.types import KeyedList, KeyedSet, validated
+
+
+def keyfn(item):
+    PROBE.enter('keyfn')
+    return item.name
+
+
+def _nonneg(v):
+    PROBE.enter('validator')
+    return isinstance(v, int) and v >= 0
+
+
+NonNeg = validated(_nonneg, name="NonNeg")
+
+
+@spec_class
+class Unit:
+    name: str = ""
+    v: int = 0
+
+
+@spec_class
+class Box:
+    n: NonNeg = 0
+    parts: KeyedList[Unit, str] = Attr(default_factory=lambda: KeyedList(key=keyfn))
+    units: KeyedSet[Unit, str] = Attr(default_factory=lambda: KeyedSet(key=keyfn))
+    eunits: KeyedSet[Unit, str] = Attr(default_factory=lambda: KeyedSet(key=keyfn, enforce_item_equivalence=True))
+
+    def __post_copy__(self):
+        PROBE.enter('post_copy')
+"""
+
+
+def directed_callback_kinds(ctx):
+    """
+    The callback kinds the generated grammar does not contain - key functions of keyed containers, validators of
+    validated types, __post_copy__ - each made to raise at its first, second, ... invocation inside element helpers,
+    scalar helpers, assignment and deepcopy, in place and copy-on-write; plus failures of the container itself
+    (duplicate key, unequal item under enforce_item_equivalence). Whatever raises, the receiver is as before.
+    """
+    from vlib import faults
+    from vlib.snap import snap
+
+    probe = faults.Probe()
+    ns = cg.exec_module(CALLBACK_KINDS_SRC, extra={"PROBE": probe}, prefix="verif_c04d").__dict__
+    Box, Unit = ns["Box"], ns["Unit"]
+    inc = lambda v: v + 1  # noqa: E731
+
+    def mk():
+        b = Box(n=1)
+        for name in ("a", "b"):
+            b.with_part(Unit(name=name, v=1), _inplace=True)
+            b.with_unit(Unit(name=name, v=1), _inplace=True)
+            b.with_eunit(Unit(name=name, v=1), _inplace=True)
+        return b
+
+    ops = [
+        ("with_part(new)", lambda b, ip: b.with_part(Unit(name="c"), _inplace=ip)),
+        ("with_part(dup)", lambda b, ip: b.with_part(Unit(name="a", v=9), _inplace=ip)),
+        ("update_part('a', v=5)", lambda b, ip: b.update_part("a", v=5, _inplace=ip)),
+        ("update_part('a', name='z')", lambda b, ip: b.update_part("a", name="z", _inplace=ip)),
+        ("update_part('a', name='b')", lambda b, ip: b.update_part("a", name="b", _inplace=ip)),
+        ("transform_part('a', v=inc)", lambda b, ip: b.transform_part("a", v=inc, _inplace=ip)),
+        ("without_part('a')", lambda b, ip: b.without_part("a", _inplace=ip)),
+        ("without_part(0)", lambda b, ip: b.without_part(0, _by_index=True, _inplace=ip)),
+        ("with_parts([x, y])", lambda b, ip: b.with_parts([Unit(name="x"), Unit(name="y")], _inplace=ip)),
+        ("with_unit(new)", lambda b, ip: b.with_unit(Unit(name="c"), _inplace=ip)),
+        ("update_unit('a', v=5)", lambda b, ip: b.update_unit("a", v=5, _inplace=ip)),
+        ("update_unit('a', name='z')", lambda b, ip: b.update_unit("a", name="z", _inplace=ip)),
+        ("transform_unit('a', v=inc)", lambda b, ip: b.transform_unit("a", v=inc, _inplace=ip)),
+        ("without_unit('a')", lambda b, ip: b.without_unit("a", _inplace=ip)),
+        ("update_eunit('a', v=5)", lambda b, ip: b.update_eunit("a", v=5, _inplace=ip)),
+        ("update_eunit('a', name='b')", lambda b, ip: b.update_eunit("a", name="b", _inplace=ip)),
+        ("with_eunit(unequal 'a')", lambda b, ip: b.with_eunit(Unit(name="a", v=9), _inplace=ip)),
+        ("with_n(5)", lambda b, ip: b.with_n(5, _inplace=ip)),
+        ("with_n(-1)", lambda b, ip: b.with_n(-1, _inplace=ip)),
+        ("transform_n(inc)", lambda b, ip: b.transform_n(inc, _inplace=ip)),
+        ("update(n=4, parts=[x])", lambda b, ip: b.update(n=4, parts=[Unit(name="x")], _inplace=ip)),
+        ("b.n = 3", lambda b, ip: setattr(b, "n", 3)),
+        ("del b.parts", lambda b, ip: delattr(b, "parts")),
+        ("reset()", lambda b, ip: b.reset(_inplace=ip)),
+        ("deepcopy", lambda b, ip: __import__("copy").deepcopy(b)),
+    ]
+
+    def judged(label, ip, arm):
+        b = mk()
+        probe.reset()
+        if arm is not None:
+            probe.arm(*arm)
+        before = snap({"recv": b})
+        try:
+            ops_by_label[label](b, ip)
+            outcome, exc = "returned", None
+        except BaseException as e:  # noqa
+            outcome, exc = "raised", e
+        log = probe.invocations()
+        fired = probe.fired
+        probe.reset()
+        after = snap({"recv": b})
+        if outcome == "raised":
+            ctx.count("raising_ops_judged")
+            ctx.count("directed_callback_kind_cases")
+            failure = f"callback:{arm[0]}" if (arm and fired) else "container_rejects"
+            ctx.count(f"fail:{failure.split(':')[0]}")
+            if arm and fired:
+                ctx.count(f"callback_kind:{arm[0]}")
+            ctx.sig("directed_cb", label, ip, failure, arm[1] if arm else None)
+            if before != after:
+                ctx.violation("raise_leaves_state_unchanged", f"[directed] Box.{label} (in place: {ip}) raised {type(exc).__name__} ({failure}{', invocation #' + str(arm[1]) if arm and fired else ''}) but changed the receiver: {before.diff(after, 3)}",
+                              features={"phase": "directed_callback_kinds", "hkind": label.split("(")[0], "inplace": ip, "failure": failure, "callback": arm[0] if arm else None, "exc": type(exc).__name__},
+                              case=["directed_cb", label, ip, list(arm) if arm else None], exception=safe_repr(exc, 160))
+        return log
+
+    ops_by_label = dict(ops)
+    for label, _fn in ops:
+        for ip in (False, True):
+            log = judged(label, ip, None)
+            for name, i in log[:24]:
+                judged(label, ip, (name, i))
+
+
 def run(ctx, params):
     rng = ctx.rng
     if params.get("directed"):
+        directed_callback_kinds(ctx)
         return directed_known_findings(ctx)
     for ci in range(params["cases"]):
         decl = cg.gen_module(rng, {"frozen": False})
